@@ -497,8 +497,8 @@ def run(ctx):
     ends = [('sp', e) for e in (1, 2, N_SP - 2, N_SP - 1, 1 << 255, 1 << 128)] + [('p2', e) for e in (1, 2, N_P2 - 2, N_P2 - 1, 1 << 255, 1 << 128)] \
         + [('BL', e) for e in ((1, N_BL - 1) if quick else (1, 2, N_BL - 2, N_BL - 1))] + [('ed', 0), ('ed', (1 << 256) - 1)]
     for curve, e in ends:
-        cases.append((eval_key_case, {'curve': curve, 'secret': e.to_bytes(32, 'big'), 'seed': rng.getrandbits(48), 'passphrases': 1,
-                                      'pw': [random_passphrase(rng)], 'salts': [None]}))
+        cases.append((eval_key_case, {'curve': curve, 'secret': e.to_bytes(32, 'little' if curve == 'BL' else 'big'), 'seed': rng.getrandbits(48), 'passphrases': 1,
+                                      'pw': [random_passphrase(rng)], 'salts': [None]}))      # (a BLS secret is a little-endian scalar)
         ctx.count('key_boundary', f'{curve}:range-end')
     # ---------------- mnemonics
     from mnemonic import Mnemonic
